@@ -105,7 +105,7 @@ def mut_comments(src, rnd, p=0.3):
     for ln, col in spots.items():
         if rnd.random() < p and lines[ln][:col].strip():
             k += 1
-            c = rnd.choice(['# c%d' % k, '# é%d' % k, '#: note %d' % k])
+            c = rnd.choice(['# c%d' % k, '# é%d' % k, '#: note %d' % k, '# C:\\dir%d\\' % k])
             lines[ln] = lines[ln][:col] + '  ' + c
     new = '\n'.join(lines)
     return new if k and _accept(src, new) else None
@@ -126,7 +126,7 @@ def mut_comment_lines(src, rnd, p=0.25):
             ind = line[:len(line) - len(line.lstrip())]
             # only when the statement starts its line
             k += 1
-            lines.insert(ln - 1, ind + '# block %d' % k)
+            lines.insert(ln - 1, ind + rnd.choice(['# block %d' % k, '# block %d' % k, '# see C:\\tools%d\\' % k]))
     new = '\n'.join(lines)
     return new if k and _accept(src, new) else None
 
@@ -338,4 +338,6 @@ GRAMMAR_PROGRAMS = [
     'x = (1,\n     2,  # two\n     3)\ny = [\n    a,\n    b,\n]\nz = f(\n    a,\n    b=c,\n)\n',
     'a = b = c = d\n(a, b), c = *d, e = f\n[a, *b] = c\na.b, c[d] = 1, 2\n',
     'lambda: 0\nlambda *a: a\nlambda **k: k\nlambda a, /: a\nlambda *, a: a\n',
+    'def f():\n    """doc\n    more\n    """\n    b"""MAGIC\n        v1\n        """\n    x = """s\n      t"""\n    if x:\n        r"""raw\n            \\d"""\n        return 1\n',
+    'class K:\n    """doc"""\n    b"""not a\n    docstring"""\n    def m(self):\n        """m doc\n        line\n        """\n        return b"""x\n        y"""\n',
 ]
